@@ -31,43 +31,43 @@ import (
 type EvKind int
 
 const (
-	EvRecv       EvKind = iota // a message picked up by the node's loop (peer or own)
-	EvTimeout                  // a timeout picked up by the loop
-	EvStep                     // newStep(): round-step entry written to the WAL
-	EvEndHeight                // #ENDHEIGHT written
-	EvSignVote                 // sign request for a vote
-	EvSignProp                 // sign request for a proposal
-	EvSaveBlock                // BlockOperations.SaveBlock
-	EvApply                    // CommitAndValidateBlockTxs (block executed and head written)
-	EvCreate                   // CreateProposalBlock
-	EvWALStop                  // WAL.Stop() (loop terminated)
-	EvEvidence                 // AddEvidenceFromConsensus
-	EvRestart                  // harness marker: node restarted here
+	EvRecv      EvKind = iota // a message picked up by the node's loop (peer or own)
+	EvTimeout                 // a timeout picked up by the loop
+	EvStep                    // newStep(): round-step entry written to the WAL
+	EvEndHeight               // #ENDHEIGHT written
+	EvSignVote                // sign request for a vote
+	EvSignProp                // sign request for a proposal
+	EvSaveBlock               // BlockOperations.SaveBlock
+	EvApply                   // CommitAndValidateBlockTxs (block executed and head written)
+	EvCreate                  // CreateProposalBlock
+	EvWALStop                 // WAL.Stop() (loop terminated)
+	EvEvidence                // AddEvidenceFromConsensus
+	EvRestart                 // harness marker: node restarted here
 )
 
 // Ev is one entry of a node's ordered trace. It is appended from the node's own
 // loop goroutine (WAL, signer and block-operation callbacks), so its order is the
 // order in which the node consumed inputs and produced outputs.
 type Ev struct {
-	Seq    int64
-	Kind   EvKind
-	Msg    consensus.Message
-	Own    bool
-	Peer   string
-	TI     consensus.VerifTimeoutInfo
-	Height uint64
-	Round  uint32
-	Step   string
-	Vote   *kproto.Vote
-	Prop   *kproto.Proposal
-	Block  *types.Block
-	BID    types.BlockID
-	Commit *types.Commit
+	Seq     int64
+	Kind    EvKind
+	Msg     consensus.Message
+	Own     bool
+	Peer    string
+	TI      consensus.VerifTimeoutInfo
+	Height  uint64
+	Round   uint32
+	Step    string
+	Vote    *kproto.Vote
+	Prop    *kproto.Proposal
+	Block   *types.Block
+	BID     types.BlockID
+	Commit  *types.Commit
 	AppHash common.Hash
-	ValUpd []*types.Validator
-	Err    string
-	Ev     types.Evidence
-	DurIdx int // number of durable units written before this event
+	ValUpd  []*types.Validator
+	Err     string
+	Ev      types.Evidence
+	DurIdx  int // number of durable units written before this event
 }
 
 var globalSeq int64
@@ -110,11 +110,11 @@ type DBOp struct {
 
 // DurEv is one durable unit: a DB put/delete/batch (atomic) or a WAL fsync.
 type DurEv struct {
-	Kind    string // "db" | "walsync"
-	Ops     []DBOp
-	WalSize int64 // for walsync: size of the WAL head file after the sync
+	Kind     string // "db" | "walsync"
+	Ops      []DBOp
+	WalSize  int64            // for walsync: size of the WAL head file after the sync
 	WalFiles map[string]int64 // for walsync: size of every file of the WAL group after the sync (rotation)
-	Desc    string
+	Desc     string
 }
 
 type DurLog struct {
@@ -261,14 +261,14 @@ func (w *memWAL) SearchForEndHeight(height int64, o *consensus.WALSearchOptions)
 // RecWAL wraps the node's WAL: it records everything the loop consumes, hides
 // sentinels from the inner WAL, and logs every fsync as a durable unit.
 type RecWAL struct {
-	inner    consensus.WAL
-	path     string // head file of a file WAL ("" for memWAL)
-	tr       *Trace
-	dur      *DurLog
-	seen     chan int
-	mu       sync.Mutex
-	internal int  // own (internal-queue) messages seen since the counter was reset
-	stopped  bool // Stop() called
+	inner       consensus.WAL
+	path        string // head file of a file WAL ("" for memWAL)
+	tr          *Trace
+	dur         *DurLog
+	seen        chan int
+	mu          sync.Mutex
+	internal    int  // own (internal-queue) messages seen since the counter was reset
+	stopped     bool // Stop() called
 	harnessStop bool
 }
 
@@ -382,7 +382,7 @@ func (p *RecPV) SignProposal(chainID string, v *kproto.Proposal) error {
 // height/round/step" filter, reference = last armed timeout, fired or not); the
 // scheduler decides when it fires.
 type VTicker struct {
-	mu      sync.Mutex
+	mu       sync.Mutex
 	last     consensus.VerifTimeoutInfo
 	pending  bool
 	deadline time.Time // virtual time at which the armed timeout expires
